@@ -61,7 +61,20 @@ def fresh_errors_map():
 
 def build_app(state):
     # max_memfile_size 2: bodies of 3 bytes and more are spilled to the (stubbed) temporary file
-    app = ombott.Ombott({"max_body_size": 6, "max_memfile_size": 2, "errors_map": fresh_errors_map()})
+    # domain_map: virtual hosts behind a proxy are dispatched to sub-applications by a path prefix
+    app = ombott.Ombott({"max_body_size": 6, "max_memfile_size": 2, "errors_map": fresh_errors_map(),
+                         "domain_map": lambda host: {"blog.example": "blog", "shop.example": "shop"}.get(host),
+                         "app_name_header": "HTTP_X_APP_NAME"})
+
+    @app.route("/blog/w")
+    def blog():
+        app.response.set_cookie("tenant", "blog")
+        return "blog:" + app.request.query_string
+
+    @app.route("/shop/w")
+    def shop():
+        app.response.headers["X-Tenant"] = "shop"
+        return "shop:" + app.request.query_string
 
     @app.route("/ok")
     def ok():
@@ -101,6 +114,13 @@ def env_of(kind, qs="", accept=None):
         env["HTTP_ACCEPT"] = accept
     if kind == "ok":
         pass
+    elif kind in ("vh-blog", "vh-shop", "vh-none", "vh-direct"):
+        # the same Host (the proxy's backend name) for every tenant, told apart by X-Forwarded-Host
+        env.update({"PATH_INFO": "/w", "HTTP_HOST": "backend:8080"})
+        if kind == "vh-direct":
+            env["HTTP_HOST"] = "shop.example"
+        elif kind != "vh-none":
+            env["HTTP_X_FORWARDED_HOST"] = kind[3:] + ".example"
     elif kind == "404":
         env["PATH_INFO"] = "/nope"
     elif kind == "405":
@@ -134,7 +154,8 @@ def env_of(kind, qs="", accept=None):
     return env
 
 
-KINDS = ["ok", "404", "405", "badpath", "crash", "raise", "badchunk", "oversize", "body", "body2", "body6", "chunkbody"]
+KINDS = ["ok", "404", "405", "badpath", "crash", "raise", "badchunk", "oversize", "body", "body2", "body6", "chunkbody",
+         "vh-blog", "vh-shop", "vh-none", "vh-direct"]
 
 
 def serve(app, env):
@@ -238,7 +259,7 @@ def queries(tier):
                      "ASCII string of <= 1 character, status written from %r, Accept json or not" % (k, STATUS),
                      timeout=150 if not T else 400, per_path_timeout=40, expect_cover=["ok"], family="retention"))
     firsts = KINDS
-    seconds = ["ok", "404", "badpath", "crash", "body", "body2", "badchunk", "oversize"] if not T else KINDS
+    seconds = ["ok", "404", "badpath", "crash", "body", "body2", "badchunk", "oversize", "vh-blog", "vh-none"] if not T else KINDS
     for k1 in firsts:
         for k2 in seconds:
             for j2 in ((False,) if not T else (False, True)):
